@@ -492,6 +492,49 @@ def trace_inputs(trace, entry):
 # ---------------------------------------------------------------------------------------
 # native build (replay driver)
 
+def native_lib(pid, g, env):
+    """static library of the whole of /repo/src (current tree), ASan/UBSan, once per run and
+    configuration; supplies whatever the group's own sources reference"""
+    cfg = ("nd" if g["ndebug"] else "dbg") + ("_fast" if g["fast"] else "")
+    ldir = os.path.join(WORK, pid, "_native", cfg)
+    lib = os.path.join(ldir, "libbee2n.a")
+    with _cache_guard:
+        lk = _cache_locks.setdefault(lib, threading.Lock())
+    with lk:
+        if os.path.exists(lib):
+            return lib
+        os.makedirs(os.path.join(ldir, "tmp"), exist_ok=True)
+        e2 = dict(env)
+        e2["TMPDIR"] = os.path.join(ldir, "tmp")
+        cm = open(os.path.join(REPO, "src/CMakeLists.txt")).read()
+        m = re.search(r"set\(src(.*?)\)", cm, re.S)
+        files = m.group(1).split() if m else []
+        if not files:
+            raise Infra("cannot read the source list from src/CMakeLists.txt")
+        base = ["gcc", "-g", "-O1", "-fsanitize=address,undefined", "-fno-sanitize-recover=undefined",
+                "-fno-omit-frame-pointer", "-w", "-c", "-I", os.path.join(REPO, "include"),
+                "-I", os.path.join(REPO, "src")]
+        if g["ndebug"]:
+            base.append("-DNDEBUG")
+        if g["fast"]:
+            base.append("-DSAFE_FAST")
+        objs = []
+        def cc(f):
+            o = os.path.join(ldir, f.replace("/", "_")[:-2] + ".o")
+            extra = ["-DutilAssert=utilAssert_real"] if f.endswith("core/util.c") else []
+            rc, out, err, _, _ = slot_sh(base + extra + [os.path.join(REPO, "src", f), "-o", o], timeout=300, env=e2)
+            if rc != 0:
+                raise Infra("native library: %s: %s" % (f, err[-800:]))
+            return o
+        with cf.ThreadPoolExecutor(8) as ex:
+            objs = list(ex.map(cc, files))
+        rc, out, err, _, _ = sh(["ar", "rcs", lib + ".part"] + objs, timeout=120, env=e2)
+        if rc != 0:
+            raise Infra("ar failed: " + err[-500:])
+        os.rename(lib + ".part", lib)
+    return lib
+
+
 def native_build(g, wd, env):
     exe = os.path.join(wd, "native")
     if os.path.exists(exe):
@@ -508,8 +551,9 @@ def native_build(g, wd, env):
     srcs = g["native_srcs"] if g["native_srcs"] is not None else g["srcs"]
     files = [os.path.join(VERIF, g["harness"]), os.path.join(VERIF, "lib/native_rt.c")] + \
         [os.path.join(REPO, s) for s in srcs if not s.endswith("core/util.c")]
+    lib = native_lib(g.get("_pid", "X"), g, env)
     cmd = ["gcc", "-g", "-O1", "-fsanitize=address,undefined", "-fno-sanitize-recover=undefined",
-           "-fno-omit-frame-pointer", "-w"] + inc + defs + files + ["-o", exe, "-lpthread"]
+           "-fno-omit-frame-pointer", "-w"] + inc + defs + files + [lib, "-o", exe, "-lpthread", "-ldl"]
     rc, out, err, _, to = sh(cmd, timeout=600, env=env)
     if rc != 0:
         raise Infra("native build failed: %s" % (err or out)[-2000:])
@@ -568,6 +612,8 @@ def run_group(pid, g, tier, seed, keep=False):
     env = dict(os.environ)
     env["TMPDIR"] = os.path.join(wd, "tmp")
     t0 = time.time()
+    g = dict(g)
+    g["_pid"] = pid
     R = dict(name=g["name"], level=g["level"], bound=g["bound"], backend=g["backend"],
              required=g["required"], fn=list(g["fn"]), arch=g["arch"], obligations=0,
              discharged=0, failed=[], unknown=[], canaries=0, canaries_ok=0, infra=None,
